@@ -285,9 +285,11 @@ def r08_4_transient(repo: Repo, rep: Report):
 
 def r08_5_shared(repo: Repo, rep: Report):
     """persistent and transient storage (and the storage of different accounts) are distinct objects (shared with C20 R20.8)"""
-    from hsa.rules.c20 import r20_8_no_aliasing_assignment
+    from hsa.rules.c20 import r20_1_fork_copies, r20_8_no_aliasing_assignment
 
     r20_8_no_aliasing_assignment(repo, rep)
+    # a copy of the storage (branch, next transaction, rollback) keeps every field, including the `symbolic` flag
+    r20_1_fork_copies(repo, rep)
 
 
 RULES = [r08_5_shared, r08_1_precomputed_tables, r08_2_decode_siblings, r08_3_load_store_agreement, r08_4_transient]
